@@ -1,4 +1,218 @@
-import GooseVerif.Model.DirFs
+/-
+C13 — `AtomicCreate(dir, name, data)` is all-or-nothing, exact after return, durable before
+visible, and does not disturb other names (sequential / crash / fault part).
+
+Property theorems only (helpers: `Lemmas/AtomicCreate.lean`). The object is `acRun` of
+`Model/DirFs.lean`: `DirFs.AtomicCreate` of machine/filesys/dir.go as the system calls it issues
+(`openat(root, name.<pid>.<counter>.tmp, O_CREAT|O_WRONLY|O_TRUNC)`, `write` in a loop that
+tolerates short writes, `fsync`, `renameat` to `dir/name`, deferred `close`) over the OS model `Os`.
+A `Disturb` chooses the short-write pattern, a kill after `k` system calls (`stopAfter`), or a
+failing `k`-th system call (`failAt`); every theorem quantifies over all of them, so "at every
+instant" is the case `stopAfter = some k` for every `k` (a kill keeps the tree and the page
+cache and only drops descriptors, which `content` does not look at).
+
+Hypotheses, all explicit:
+* `WF o0`: both content tables have one slot per inode and every directory entry refers to an
+  existing inode. `WF Os.empty` holds and `mkdirat`/`acRun` preserve it (`wf_empty`, `wf_mkdirat`,
+  `wf_preserved`).
+* `TmpNotLinked o0 n d' n'`: *if* the temporary name `n.<counter>.tmp` of this call already
+  exists in the root (a leftover), its inode is not the one `d'/n'` points to (it is not a hard
+  link of it). It holds in particular when the temporary name is fresh (`TmpNotLinked.of_fresh`),
+  which the unique counter provides. Leftovers under the very same temporary name are allowed
+  (`O_TRUNC` empties them). It is needed for `all_or_nothing`, `durable_before_visible`, `frame`;
+  it is *not* needed for `exact_after_return`, `ok_when_undisturbed`, `leftover_harmless`.
+* `(aget o0.dirs d).isSome` (the directory exists) only where a normal return is claimed; without
+  it the rename fails and the call panics leaving everything as it was (`missing_dir_panics`).
+No hypothesis on the internal descriptor is needed (`openat` overwrites the slot).
+
+The concurrency clause of C13 is handled elsewhere.
+-/
+import GooseVerif.Lemmas.AtomicCreate
+
 namespace GooseVerif.Props.C13
-theorem placeholder : True := trivial
+open GooseVerif.Model.Fs GooseVerif.Lemmas.AtomicCreate
+
+/-! ### the hypotheses are satisfiable and stable -/
+
+theorem wf_empty : WF Os.empty := WF.empty
+
+theorem wf_mkdirat (o : Os) (d : String) (h : WF o) : WF (o.mkdirat d).1 := h.mkdirat d
+
+/-- Every run (however disturbed) leaves a well-formed state. -/
+theorem wf_preserved (o0 : Os) (d n : String) (data : Bytes) (dist : Disturb) (hwf : WF o0) :
+    WF (acRun o0 d n data dist).1 := acRun_wf o0 d n data dist hwf
+
+/-- Every run consumes its temporary-name counter: no two calls share a temporary name. -/
+theorem tmp_counter_advances (o0 : Os) (d n : String) (data : Bytes) (dist : Disturb) (hwf : WF o0) :
+    (acRun o0 d n data dist).1.tmpCount = o0.tmpCount + 1 := acRun_tmpCount o0 d n data dist hwf
+
+/-- A fresh temporary name is in particular not a hard link of anything. -/
+theorem fresh_tmp_not_linked (o0 : Os) (n d' n' : String)
+    (hfresh : aget o0.root (tmpName n o0.tmpCount) = none) : TmpNotLinked o0 n d' n' :=
+  TmpNotLinked.of_fresh hfresh d' n'
+
+/-! ### the property -/
+
+/-- **All or nothing.** For every short-write pattern, every crash point and every failing system
+call: `d/n` is as it was before, or contains exactly `data`. -/
+theorem all_or_nothing (o0 : Os) (d n : String) (data : Bytes) (dist : Disturb)
+    (hwf : WF o0) (htmp : TmpNotLinked o0 n d n) :
+    content (acRun o0 d n data dist).1 d n = content o0 d n ∨
+    content (acRun o0 d n data dist).1 d n = some data := by
+  obtain ⟨t, ht, hB | hD⟩ := acRun_cases o0 d n data dist hwf
+  · exact Or.inl (hB.1.content (ht.ne hwf htmp)).1
+  · exact Or.inr hD.1.content_target.1
+
+/-- The same for what is on stable storage (the state a power loss would leave, as far as file
+contents go): the durable contents of `d/n` are as before, or exactly `data`. -/
+theorem durable_all_or_nothing (o0 : Os) (d n : String) (data : Bytes) (dist : Disturb)
+    (hwf : WF o0) (htmp : TmpNotLinked o0 n d n) :
+    durableContent (acRun o0 d n data dist).1 d n = durableContent o0 d n ∨
+    durableContent (acRun o0 d n data dist).1 d n = some data := by
+  obtain ⟨t, ht, hB | hD⟩ := acRun_cases o0 d n data dist hwf
+  · exact Or.inl (hB.1.content (ht.ne hwf htmp)).2
+  · exact Or.inr hD.1.content_target.2
+
+/-- **Exact after return.** Once the call returns, `d/n` contains exactly `data`, from any
+well-formed initial state: whatever earlier interrupted calls left behind, even under the very
+same temporary name, and whatever the short-write pattern. -/
+theorem exact_after_return (o0 : Os) (d n : String) (data : Bytes) (dist : Disturb)
+    (hwf : WF o0) (hok : (acRun o0 d n data dist).2 = .ok) :
+    content (acRun o0 d n data dist).1 d n = some data := by
+  obtain ⟨t, _, hB | hD⟩ := acRun_cases o0 d n data dist hwf
+  · rcases hB.2.1 with h | ⟨h, _⟩ <;> rw [h] at hok <;> cases hok
+  · exact hD.1.content_target.1
+
+/-- The call does return when nothing kills it and no system call fails (short writes allowed),
+provided the directory exists. -/
+theorem ok_when_undisturbed (o0 : Os) (d n : String) (data : Bytes) (dist : Disturb)
+    (hwf : WF o0) (hdir : (aget o0.dirs d).isSome)
+    (hs : dist.stopAfter = none) (hf : dist.failAt = none) :
+    (acRun o0 d n data dist).2 = .ok := by
+  obtain ⟨t, _, hB | hD⟩ := acRun_cases o0 d n data dist hwf
+  · rw [hB.2.2 hs hf] at hdir; cases hdir
+  · rcases hD.2 with h | ⟨_, h⟩
+    · exact h
+    · rw [hs] at h; cases h
+
+/-- Without the directory the rename fails: the call never returns normally (it panics unless
+killed first) and `d/n` stays absent. -/
+theorem missing_dir_panics (o0 : Os) (d n : String) (data : Bytes) (dist : Disturb)
+    (hwf : WF o0) (hdir : aget o0.dirs d = none) :
+    (acRun o0 d n data dist).2 ≠ .ok ∧
+    (dist.stopAfter = none → (acRun o0 d n data dist).2 = .panic) ∧
+    content (acRun o0 d n data dist).1 d n = none := by
+  obtain ⟨t, _, hB | hD⟩ := acRun_cases o0 d n data dist hwf
+  · refine ⟨?_, ?_, ?_⟩
+    · rcases hB.2.1 with h | ⟨h, _⟩ <;> rw [h] <;> exact fun e => by cases e
+    · intro hs
+      rcases hB.2.1 with h | ⟨_, h⟩
+      · exact h
+      · rw [hs] at h; cases h
+    · simp only [content, Os.lookup, Os.entries, hB.1.dirs, hdir, Option.bind_none, Option.map_none]
+  · obtain ⟨es, hes, _⟩ := hD.1.dirs
+    rw [hdir] at hes; cases hes
+
+/-- **Durable before visible.** Whenever `d/n` has come to contain `data` through this call, the
+durable contents of the file are `data` as well: the bytes were flushed (`fsync`) before the
+name pointed to them (`renameat`). Holds also when the process is killed right after the rename. -/
+theorem durable_before_visible (o0 : Os) (d n : String) (data : Bytes) (dist : Disturb)
+    (hwf : WF o0) (htmp : TmpNotLinked o0 n d n)
+    (hnew : content (acRun o0 d n data dist).1 d n = some data) (hold : content o0 d n ≠ some data) :
+    durableContent (acRun o0 d n data dist).1 d n = some data := by
+  obtain ⟨t, ht, hB | hD⟩ := acRun_cases o0 d n data dist hwf
+  · rw [(hB.1.content (ht.ne hwf htmp)).1] at hnew; exact absurd hnew hold
+  · exact hD.1.content_target.2
+
+/-- In particular after a normal return the data is on stable storage. -/
+theorem durable_after_return (o0 : Os) (d n : String) (data : Bytes) (dist : Disturb)
+    (hwf : WF o0) (hok : (acRun o0 d n data dist).2 = .ok) :
+    durableContent (acRun o0 d n data dist).1 d n = some data := by
+  obtain ⟨t, _, hB | hD⟩ := acRun_cases o0 d n data dist hwf
+  · rcases hB.2.1 with h | ⟨h, _⟩ <;> rw [h] at hok <;> cases hok
+  · exact hD.1.content_target.2
+
+/-- **Frame.** A call for `d/n` (however disturbed) leaves every other name `d'/n'` of every
+sub-directory alone, volatile and durable contents, provided the temporary file is not a hard link
+of `d'/n'` either. -/
+theorem frame (o0 : Os) (d n : String) (data : Bytes) (dist : Disturb) (d' n' : String)
+    (hwf : WF o0) (hne : (d', n') ≠ (d, n)) (htmp : TmpNotLinked o0 n d' n') :
+    content (acRun o0 d n data dist).1 d' n' = content o0 d' n' ∧
+    durableContent (acRun o0 d n data dist).1 d' n' = durableContent o0 d' n' := by
+  obtain ⟨t, ht, hB | hD⟩ := acRun_cases o0 d n data dist hwf
+  · exact hB.1.content (ht.ne hwf htmp)
+  · exact hD.1.content_other hne (ht.ne hwf htmp)
+
+/-- The frame property under the usual condition: the temporary name of the call is fresh. -/
+theorem frame_fresh (o0 : Os) (d n : String) (data : Bytes) (dist : Disturb) (d' n' : String)
+    (hwf : WF o0) (hne : (d', n') ≠ (d, n)) (hfresh : aget o0.root (tmpName n o0.tmpCount) = none) :
+    content (acRun o0 d n data dist).1 d' n' = content o0 d' n' ∧
+    durableContent (acRun o0 d n data dist).1 d' n' = durableContent o0 d' n' :=
+  frame o0 d n data dist d' n' hwf hne (TmpNotLinked.of_fresh hfresh d' n')
+
+/-- **Leftovers are harmless.** After a first call for `d/n` disturbed in any way (`dist1`
+arbitrary: killed after any number of system calls, a failing call, short writes), a following
+call for the same name with any `data'` that is not killed and meets no failing system call returns
+and `d/n` contains exactly `data'`. No freshness hypothesis: the second call would even cope with a
+leftover under its own temporary name. -/
+theorem leftover_harmless (o0 : Os) (d n : String) (data data' : Bytes) (dist1 dist2 : Disturb)
+    (hwf : WF o0) (hdir : (aget o0.dirs d).isSome)
+    (hs : dist2.stopAfter = none) (hf : dist2.failAt = none) :
+    (acRun (acRun o0 d n data dist1).1 d n data' dist2).2 = .ok ∧
+    content (acRun (acRun o0 d n data dist1).1 d n data' dist2).1 d n = some data' := by
+  have hwf1 := acRun_wf o0 d n data dist1 hwf
+  have hdir1 := acRun_dir_isSome o0 d n data dist1 hwf hdir
+  have hok := ok_when_undisturbed _ d n data' dist2 hwf1 hdir1 hs hf
+  exact ⟨hok, exact_after_return _ d n data' dist2 hwf1 hok⟩
+
+/-- The instance asked for: the first call is killed after `k` system calls, for any `k`. -/
+theorem crash_then_retry (o0 : Os) (d n : String) (data data' : Bytes) (k : Nat)
+    (hwf : WF o0) (hdir : (aget o0.dirs d).isSome) :
+    (acRun (acRun o0 d n data { stopAfter := some k }).1 d n data' {}).2 = .ok ∧
+    content (acRun (acRun o0 d n data { stopAfter := some k }).1 d n data' {}).1 d n = some data' :=
+  leftover_harmless o0 d n data data' { stopAfter := some k } {} hwf hdir rfl rfl
+
+/-! ### non-vacuity: concrete states and runs -/
+
+/-- A root with one sub-directory `d`. -/
+def s0 : Os := (Os.empty.mkdirat "d").1
+
+example : WF s0 := wf_mkdirat _ _ wf_empty
+example : (aget s0.dirs "d").isSome := by decide
+example : aget s0.root (tmpName "x" s0.tmpCount) = none := by decide
+example : TmpNotLinked s0 "x" "d" "x" := fresh_tmp_not_linked _ _ _ _ (by decide)
+
+/-- An undisturbed call returns and installs the data, volatile and durable. -/
+example : (acRun s0 "d" "x" [1, 2, 3] {}).2 = .ok := by decide
+example : content (acRun s0 "d" "x" [1, 2, 3] {}).1 "d" "x" = some [1, 2, 3] := by decide
+example : durableContent (acRun s0 "d" "x" [1, 2, 3] {}).1 "d" "x" = some [1, 2, 3] := by decide
+
+/-- Short writes (1 byte, then "0" treated as 1, then the rest): still everything is written. -/
+example : (acRun s0 "d" "x" [1, 2, 3, 4] { shorts := [1, 0] }).2 = .ok ∧
+    content (acRun s0 "d" "x" [1, 2, 3, 4] { shorts := [1, 0] }).1 "d" "x" = some [1, 2, 3, 4] := by decide
+
+/-- A state with an old version of `d/x`; a kill before the rename (after open, write, fsync)
+leaves the old version, a kill right after the rename shows the new one: both disjuncts occur. -/
+def s1 : Os := (acRun s0 "d" "x" [9] {}).1
+
+example : content s1 "d" "x" = some [9] := by decide
+example : (acRun s1 "d" "x" [1, 2] { stopAfter := some 3 }).2 = .crashed ∧
+    content (acRun s1 "d" "x" [1, 2] { stopAfter := some 3 }).1 "d" "x" = some [9] := by decide
+example : (acRun s1 "d" "x" [1, 2] { stopAfter := some 4 }).2 = .crashed ∧
+    content (acRun s1 "d" "x" [1, 2] { stopAfter := some 4 }).1 "d" "x" = some [1, 2] := by decide
+/-- A failing `fsync` (system call 2): panic, old version kept. -/
+example : (acRun s1 "d" "x" [1, 2] { failAt := some 2 }).2 = .panic ∧
+    content (acRun s1 "d" "x" [1, 2] { failAt := some 2 }).1 "d" "x" = some [9] := by decide
+
+/-- A leftover under the *same* temporary name as the next call (counter forced back), longer than
+the new data: `O_TRUNC` makes the result exact. -/
+def s2 : Os := { (acRun s1 "d" "x" [7, 7, 7, 7, 7] { stopAfter := some 2 }).1 with tmpCount := 1 }
+
+example : (aget s2.root (tmpName "x" s2.tmpCount)).isSome := by decide
+example : (acRun s2 "d" "x" [1, 2] {}).2 = .ok ∧
+    content (acRun s2 "d" "x" [1, 2] {}).1 "d" "x" = some [1, 2] := by decide
+
+/-- Missing directory: panic. -/
+example : (acRun Os.empty "d" "x" [1] {}).2 = .panic := by decide
+
 end GooseVerif.Props.C13
